@@ -26,7 +26,7 @@ type VerbatimCase struct {
 	Text   string `json:"text,omitempty"`
 }
 
-var c08Positions = []string{"field-value", "bare", "cmp", "range-lo", "range-hi", "list", "not", "must", "mustnot", "field-name", "and-bare", "group"}
+var c08Positions = []string{"field-value", "bare", "cmp", "range-lo", "range-hi", "range-both", "range-open-hi", "list", "not", "must", "mustnot", "field-name", "and-bare", "group"}
 
 func (c VerbatimCase) val() *gen.Val {
 	if c.Clause == "quote" {
@@ -84,6 +84,28 @@ func (c VerbatimCase) build() (text string, leaf func(*expr.Expression) any, sql
 			x, _ := b.Max.(*expr.Expression)
 			return val(x)
 		}, arg(2), 1
+	case "range-both":
+		return "f:[" + v + " TO " + v + "]", func(e *expr.Expression) any {
+			b, _ := e.Right.(*expr.RangeBoundary)
+			if b == nil {
+				return nil
+			}
+			x, _ := b.Max.(*expr.Expression)
+			y, _ := b.Min.(*expr.Expression)
+			if val(x) != val(y) {
+				return nil
+			}
+			return val(x)
+		}, arg(2), 1
+	case "range-open-hi":
+		return "f:{" + v + " TO *}", func(e *expr.Expression) any {
+			b, _ := e.Right.(*expr.RangeBoundary)
+			if b == nil {
+				return nil
+			}
+			x, _ := b.Min.(*expr.Expression)
+			return val(x)
+		}, arg(1), 0
 	case "list":
 		return "f:(aa OR " + v + " OR 7)", func(e *expr.Expression) any {
 			li := r(e)
@@ -128,7 +150,7 @@ func checkC08(c VerbatimCase, active map[string]bool) (f *report.Failure, exclud
 			f = report.Failf("panic", "panic on %q: %v", text, r)
 		}
 	}()
-	rangePos := c.Pos == "range-lo" || c.Pos == "range-hi"
+	rangePos := strings.HasPrefix(c.Pos, "range-")
 	e, err := lucene.Parse(text)
 	if err != nil {
 		return report.Failf(c.Clause+":rejected", "Parse(%q) fails: %v; the %s value %s at position %s should be one string value", text, err, c.Clause, c.WQ, c.Pos), ""
